@@ -381,6 +381,19 @@ func cliEmit(r *Run, g *gen.G, docs []any, fflag, oext, iext, kf string) []byte 
 	}
 	input := "in." + iext
 	argv = append(argv, input)
+	inputs := []string{"/w/" + input}
+	if len(docs) > 1 && g.P(0.25) {
+		// two inputs: the stream is split over two files, the second named through ANOTHER
+		// (virtual) extension - the first input's extension alone selects the format
+		k := 1 + g.N(len(docs)-1)
+		b1, _ := fsx.Encode("json", toTagged(docs[:k]))
+		b2, _ := fsx.Encode("json", toTagged(docs[k:]))
+		os.WriteFile(filepath.Join(dir, real), b1, 0o644)
+		os.WriteFile(filepath.Join(dir, "second.json"), b2, 0o644)
+		in2 := "second." + g.Pick([]string{"yaml", "toml", "json", "yml", "jsonl", "json-pretty"})
+		argv = append(argv, in2)
+		inputs = append(inputs, "/w/"+in2)
+	}
 	res := fsx.Run(dir, argv, nil, nil, procTimeout, false)
 	out := res.Stdout
 	if opath != "" && res.Exit == 0 {
@@ -399,5 +412,5 @@ func cliEmit(r *Run, g *gen.G, docs []any, fflag, oext, iext, kf string) []byte 
 		mo = ""
 	}
 	_ = strings.TrimSpace
-	return emitEvent(docs, via, "", fflag, mo, []string{"/w/" + input}, res.Exit == 0 && !res.TimedOut && !res.Panicked, out, dir, classOf(eff), eff, kf)
+	return emitEvent(docs, via, "", fflag, mo, inputs, res.Exit == 0 && !res.TimedOut && !res.Panicked, out, dir, classOf(eff), eff, kf)
 }
